@@ -2,96 +2,106 @@
 (* Stage (B) for C18: TLC enumerates the shape space of the quantifier -- WDT / WDL definitions    *)
 (* that are valid for their version (WdtValid / WdlValid of the specification decide), over every  *)
 (* version, optional chunk, flag, list cardinality class and grid class -- and the coordinate case.*)
-(* quick = deterministic low-dimensional slices + a seed-rotated sample of the same set;           *)
-(* thorough = the slices + a seed-rotated sample of 12 000 shapes + 80 heavy-grid shapes.           *)
+(* The grid-free part of a shape ("base") is enumerated as a set (3 004 WDT, 782 WDL bases); the    *)
+(* grid class is attached by index arithmetic, so the full product is never materialised.           *)
+(* quick    = deterministic low-dimensional slices + a seed-rotated sample of bases x grids;        *)
+(* thorough = EVERY base, each with three (WDT) / eight (WDL) seed-rotated light grids, + heavy.    *)
 EXTENDS WdtWdl, Json, IOUtils
 
 Thorough == IOEnv.VERIF_TIER = "thorough"
 Seed     == atoi(IOEnv.VERIF_SEED)
 
 All == (0..63) \X (0..63)
-\* a fixed pseudo-random looking, asymmetric set (no TLC randomness: cases must not depend on -seed)
+\* fixed pseudo-random looking, asymmetric sets (no TLC randomness: cases must not depend on -seed)
 Scatter(gk) == {<<(gi * 37 + gk * 11) % 64, (gi * gi * 5 + gi * 3 + gk) % 64>> : gi \in 0..40}
 Grids == [empty |-> {}, c00 |-> {<<0,0>>}, c63_0 |-> {<<63,0>>}, c0_63 |-> {<<0,63>>}, c63_63 |-> {<<63,63>>},
           t10 |-> {<<1,0>>}, t01 |-> {<<0,1>>}, corners |-> {<<0,0>>, <<63,0>>, <<0,63>>, <<63,63>>},
+          pair |-> {<<2,5>>, <<7,2>>},                                   \* not symmetric under transposition
           row0 |-> {<<gx, 0>> : gx \in 0..63}, col0 |-> {<<0, gy>> : gy \in 0..63},
+          rowlast |-> {<<gx, 63>> : gx \in 0..63}, collast |-> {<<63, gy>> : gy \in 0..63},
           lshape |-> {<<gx, 2>> : gx \in 0..9} \cup {<<5, gy>> : gy \in 3..40},
-          scatter |-> Scatter(Seed % 13),
-          checker |-> {gt \in All : (gt[1] + gt[2]) % 2 = 0}, dense |-> All]
-LightGrids == {"empty", "c00", "c63_0", "c0_63", "c63_63", "t10", "t01", "corners", "row0", "col0", "lshape", "scatter"}
-HeavyGrids == {"checker", "dense"}
-TileList(gset) == TileOrder(gset)
+          halfdiag |-> {<<gx, gx \div 2>> : gx \in 0..63},
+          border |-> {gt \in All : gt[1] \in {0, 63} \/ gt[2] \in {0, 63}},
+          scatter |-> Scatter(Seed % 13), scatter2 |-> Scatter((Seed * 7 + 5) % 23),
+          checker |-> {gt \in All : (gt[1] + gt[2]) % 2 = 0}, stripes |-> {gt \in All : gt[1] % 3 = 0}, dense |-> All]
+LightSeq == <<"empty", "c00", "c63_0", "c0_63", "c63_63", "t10", "t01", "corners", "pair", "row0", "col0", "rowlast", "collast",
+              "lshape", "halfdiag", "border", "scatter", "scatter2">>
+HeavySeq == <<"checker", "stripes", "dense">>
+NL == Len(LightSeq)
 GridNames == DOMAIN Grids
-GridLists == [gg \in GridNames |-> TileList(Grids[gg])]                 \* evaluated once per grid class
+GridLists == [gg \in GridNames |-> TileOrder(Grids[gg])]                 \* evaluated once per grid class
 
-\* ---- WDT ---------------------------------------------------------------------------------------
+\* ---- WDT bases -----------------------------------------------------------------------------------
 WdtVers == {WdtVersions[gi] : gi \in 1..Len(WdtVersions)}
 ExtraFlags == {{}, {2}, {4}, {8}, {16}, {32}, {64}, {128}, {256}, {32768}, {2, 4, 8}, {2, 16, 64, 128, 256}}
 NameClasses == {<<>>, <<1>>, <<24>>, <<17, 3, 40>>, <<200, 9>>}
 \* only combinations that can be valid are built (the filter WdtValid still decides)
-WdtShapes(ggrids) ==
+WdtBases ==
     {gd \in UNION {
         {[ver |-> gv, flags |-> gx \cup (IF gw THEN {1} ELSE {}) \cup (IF gm > 0 THEN {512} ELSE {}),
           hasMwmo |-> gw \/ HasTerrainMwmo(gv), names |-> gn,
-          hasModf |-> gw, nModf |-> gf, hasMaid |-> gm > 0, nSec |-> gm, grid |-> gg] :
+          hasModf |-> gw, nModf |-> gf, hasMaid |-> gm > 0, nSec |-> gm, tiles |-> {}] :
            gx \in {gxx \in ExtraFlags : FlagsValidFor(gxx, gv)},
            gm \in IF HasMaidChunk(gv) THEN {0, 5, 8} ELSE {0},
            gn \in IF gw \/ HasTerrainMwmo(gv) THEN NameClasses ELSE {<<>>},
-           gf \in IF gw THEN {0, 1, 3} ELSE {0}, gg \in ggrids} : gv \in WdtVers, gw \in BOOLEAN} :
+           gf \in IF gw THEN {0, 1, 3} ELSE {0}} : gv \in WdtVers, gw \in BOOLEAN} :
        WdtValid(gd)}
+WdtBaseSeq == SetToSeq(WdtBases)
+NWB == Len(WdtBaseSeq)
 
-\* ---- WDL ---------------------------------------------------------------------------------------
+\* ---- WDL bases -----------------------------------------------------------------------------------
 WdlVers == {WdlVersions[gi] : gi \in 1..Len(WdlVersions)}
-WdlShapes(ggrids) ==
+WdlBases ==
     UNION {
-      {[ver |-> gv, grid |-> gg, holesCls |-> gh, names |-> gn,
+      {[ver |-> gv, holesCls |-> gh, names |-> gn,
         nIdx |-> IF gn = <<>> THEN 0 ELSE gi, nPlace |-> IF gn = <<>> THEN 0 ELSE gp,
         nMldd |-> g1, nMlmd |-> g2, mode |-> gmo] :
-         gg \in ggrids, gh \in IF HasMaho(gv) THEN {"none", "all", "some"} ELSE {"none"},
+         gh \in IF HasMaho(gv) THEN {"none", "all", "some"} ELSE {"none"},
          gn \in IF HasWmoChunks(gv) THEN NameClasses ELSE {<<>>},
          gi \in {1, 3}, gp \in {0, 1, 3},
          g1 \in IF HasMlChunks(gv) THEN {0, 1, 3} ELSE {0}, g2 \in IF HasMlChunks(gv) THEN {0, 2} ELSE {0},
          gmo \in {"same", "latest"}} : gv \in WdlVers}
+WdlBaseSeq == SetToSeq(WdlBases)
+NLB == Len(WdlBaseSeq)
 HolesOf(gtiles, gcls) == CASE gcls = "none" -> {} [] gcls = "all" -> gtiles
                            [] OTHER -> {gt \in gtiles : (gt[1] + 3 * gt[2]) % 3 # 1}
+HoleLists == [gg \in GridNames |-> [gc \in {"none", "all", "some"} |-> TileOrder(HolesOf(Grids[gg], gc))]]
 
-\* deterministic, seed-rotated selection of gcount elements of a set
-PickSome(gset, gcount, gsalt) ==
-    LET gseq == SetToSeq(gset)  gl == Len(gseq)
-        gstride == IF gl > 7919 THEN 7919 ELSE 997 IN
-    IF gl <= gcount THEN gset
-    ELSE {gseq[((Seed * 131 + gsalt + gj * gstride) % gl) + 1] : gj \in 1..gcount}
-
-WdtLight == WdtShapes(LightGrids)
-WdtHeavy == WdtShapes(HeavyGrids)
-WdlLight == WdlShapes(LightGrids)
-WdlHeavy == WdlShapes(HeavyGrids)
-
-\* low-dimensional deterministic slices: every version x map kind x MAID with default everything else;
-\* every flag and every grid at one version of each era
-Plain(gd) == gd.names \in {<<>>, <<24>>} /\ gd.nModf \in {0, 1} /\ gd.nSec \in {0, 8}
-WdtSlices == {gd \in WdtLight : Plain(gd) /\
-                \/ (gd.grid = "t10" /\ gd.flags \subseteq {1, 512})                                   \* every version x kind x MAID
-                \/ (gd.ver \in {"WotLK", "BfA"} /\ gd.flags \subseteq {1, 512} /\ gd.names = <<>>)     \* every grid
-                \/ (gd.ver \in {"WotLK", "MoP", "BfA"} /\ gd.grid = "t01" /\ gd.names = <<>> /\ gd.nModf = 0)}  \* every flag
+\* ---- pairing bases with grids ---------------------------------------------------------------------
+\* a chosen shape is a pair <<base, grid name>>
+Plain(gd)  == gd.names \in {<<>>, <<24>>} /\ gd.nModf \in {0, 1} /\ gd.nSec \in {0, 8}
 LPlain(gd) == gd.names \in {<<>>, <<24>>} /\ gd.nIdx \in {0, 1} /\ gd.nPlace \in {0, 1} /\ gd.nMldd \in {0, 1} /\ gd.nMlmd = 0
-WdlSlices == {gd \in WdlLight : LPlain(gd) /\
-                \/ (gd.grid = "t10")                                                                   \* every version x optional group x holes x mode
-                \/ (gd.ver \in {"Vanilla", "Wotlk", "Legion"} /\ gd.holesCls \in {"none", "some"} /\ gd.names = <<>> /\ gd.nMldd = 0 /\ gd.mode = "same")}
+WdtSlices ==
+    {<<gd, "t10">> : gd \in {gb \in WdtBases : Plain(gb) /\ gb.flags \subseteq {1, 512}}}                         \* every version x kind x MAID
+    \cup {<<gd, LightSeq[gi]>> : gd \in {gb \in WdtBases : Plain(gb) /\ gb.ver \in {"WotLK", "BfA"} /\ gb.flags \subseteq {1, 512} /\ gb.names = <<>>},
+                                 gi \in 1..NL}                                                                    \* every grid
+    \cup {<<gd, "t01">> : gd \in {gb \in WdtBases : Plain(gb) /\ gb.ver \in {"WotLK", "MoP", "BfA"} /\ gb.names = <<>> /\ gb.nModf = 0}}  \* every flag
+WdlSlices ==
+    {<<gd, "t10">> : gd \in {gb \in WdlBases : LPlain(gb)}}                                                       \* every version x optional group x holes x mode
+    \cup {<<gd, LightSeq[gi]>> : gd \in {gb \in WdlBases : LPlain(gb) /\ gb.ver \in {"Vanilla", "Wotlk", "Legion"} /\ gb.holesCls \in {"none", "some"}
+                                                            /\ gb.names = <<>> /\ gb.nMldd = 0 /\ gb.mode = "same"},
+                                 gi \in 1..NL}
+\* seed-rotated sample: the gj-th draw takes base (Seed*131 + salt + gj*stride) mod N and grid (gj + Seed*5) mod |grids|
+Draw(gseq, gn, gcount, gsalt, ggrids) ==
+    LET gstride == IF gn % 997 = 0 THEN 991 ELSE 997 IN
+    {<<gseq[((Seed * 131 + gsalt + gj * gstride) % gn) + 1], ggrids[((gj + Seed * 5 + gsalt) % Len(ggrids)) + 1]>> : gj \in 1..gcount}
+\* thorough: every base, with gk grids each
+Every(gseq, gn, gk, ggrids) ==
+    {<<gseq[gi], ggrids[((gi * 7 + gr * 5 + Seed) % Len(ggrids)) + 1]>> : gi \in 1..gn, gr \in 0..(gk - 1)}
 
-WdtChosen == IF Thorough THEN WdtSlices \cup PickSome(WdtLight, 7000, 1) \cup PickSome(WdtHeavy, 40, 5)
-             ELSE WdtSlices \cup PickSome(WdtLight, 150, 1) \cup PickSome(WdtHeavy, 3, 2)
-WdlChosen == IF Thorough THEN WdlSlices \cup PickSome(WdlLight, 5000, 3) \cup PickSome(WdlHeavy, 40, 6)
-             ELSE WdlSlices \cup PickSome(WdlLight, 150, 3) \cup PickSome(WdlHeavy, 3, 4)
+WdtChosen == IF Thorough THEN WdtSlices \cup Every(WdtBaseSeq, NWB, 3, LightSeq) \cup Draw(WdtBaseSeq, NWB, 45, 5, HeavySeq)
+             ELSE WdtSlices \cup Draw(WdtBaseSeq, NWB, 160, 1, LightSeq) \cup Draw(WdtBaseSeq, NWB, 3, 2, HeavySeq)
+WdlOk(gp) == gp[2] # "empty" \/ gp[1].holesCls = "none"
+WdlChosen == {gp \in (IF Thorough THEN WdlSlices \cup Every(WdlBaseSeq, NLB, 8, LightSeq) \cup Draw(WdlBaseSeq, NLB, 45, 6, HeavySeq)
+                      ELSE WdlSlices \cup Draw(WdlBaseSeq, NLB, 160, 3, LightSeq) \cup Draw(WdlBaseSeq, NLB, 3, 4, HeavySeq)) : WdlOk(gp)}
 
-WdtCase(gd) == [kind |-> "wdt", ver |-> gd.ver, flags |-> SetToSeq(gd.flags), hasMwmo |-> gd.hasMwmo, names |-> gd.names,
+WdtCase(gp) == LET gd == gp[1] IN
+               [kind |-> "wdt", ver |-> gd.ver, flags |-> SetToSeq(gd.flags), hasMwmo |-> gd.hasMwmo, names |-> gd.names,
                 hasModf |-> gd.hasModf, nModf |-> gd.nModf, hasMaid |-> gd.hasMaid, nSec |-> gd.nSec,
-                grid |-> gd.grid, tiles |-> GridLists[gd.grid],
-                layout |-> WdtChunkSpecs([gd EXCEPT !.grid = 0] @@ [tiles |-> {}]),
-                conv |-> WdtVersions]
-HoleLists == [gg \in GridNames |-> [gc \in {"none", "all", "some"} |-> TileList(HolesOf(Grids[gg], gc))]]
-WdlCase(gd) == [kind |-> "wdl", ver |-> gd.ver, grid |-> gd.grid, tiles |-> GridLists[gd.grid],
-                holes |-> HoleLists[gd.grid][gd.holesCls], holesCls |-> gd.holesCls, names |-> gd.names,
+                grid |-> gp[2], tiles |-> GridLists[gp[2]], layout |-> WdtChunkSpecs(gd), conv |-> WdtVersions]
+WdlCase(gp) == LET gd == gp[1] IN
+               [kind |-> "wdl", ver |-> gd.ver, grid |-> gp[2], tiles |-> GridLists[gp[2]],
+                holes |-> HoleLists[gp[2]][gd.holesCls], holesCls |-> gd.holesCls, names |-> gd.names,
                 nIdx |-> gd.nIdx, nPlace |-> gd.nPlace, nMldd |-> gd.nMldd, nMlmd |-> gd.nMlmd, mode |-> gd.mode,
                 conv |-> WdlVersions]
 CoordCase == [kind |-> "coord"]
@@ -102,5 +112,5 @@ Cases == <<CoordCase>> \o [gi \in 1..Len(WdtSeq) |-> WdtCase(WdtSeq[gi])] \o [gi
 GInit == vfmt = "gen" /\ vdef = 0 /\ vpc = "" /\ vcf = 0 /\ vrd = 0 /\ vrpos = 0 /\ vmaof = 0
 GNext == UNCHANGED mvars
 ASSUME ndJsonSerialize(IOEnv.CASES, Cases)
-ASSUME PrintT(<<"GENERATED", Len(Cases), Cardinality(WdtLight), Cardinality(WdtHeavy), Cardinality(WdlLight), Cardinality(WdlHeavy)>>)
+ASSUME PrintT(<<"GENERATED", Len(Cases), NWB, NLB, Len(WdtSeq), Len(WdlSeq)>>)
 =============================================================================
